@@ -21,7 +21,7 @@
 #define ogg_page_serialno env_ps_unused
 #include "vf_env.h"
 #undef ogg_page_serialno
-static ogg_int64_t B0,B1,END,D1,LASTP0,G0,P1,RAW,ENDGRAN; static int S0,S1,ES; static int budget=8; static int cur=-1;
+static ogg_int64_t B0,B1,B2,END,D1,LASTP0,G0,P1,RAW,ENDGRAN;   /* B2: where the NEXT link ends (== D1 for a link without any audio page) */ static int S0,S1,ES; static int budget=8; static int cur=-1;
 static long *g_list1; static int g_rec_calls=0, g_rec_fail=0; static ogg_int64_t g_after_hdr=-1; static void *g_setup1, *g_vendor1;
 #include "vorbisfile.c"
 static int _seek_helper(OggVorbis_File *vf,ogg_int64_t off){ CHECK(off>=0&&off<=END,"seek inside file"); if(ND_BOOL()) return OV_EREAD; vf->offset=off; return 0; }
@@ -46,10 +46,16 @@ static int _fetch_headers(OggVorbis_File *vf,vorbis_info *vi,vorbis_comment *vc,
     return r; }
   memset(vi,0,sizeof *vi); memset(vc,0,sizeof *vc); vi->channels=7; vi->rate=12345; g_setup1=vi->codec_setup=malloc(8); g_vendor1=vc->vendor=malloc(1);
   g_list1=*list=malloc(sizeof(long)); (*list)[0]=S1; *n=1; vf->os.serialno=S1; vf->offset=D1; vf->ready_state=STREAMSET; return 0; }
-static ogg_int64_t _initial_pcmoffset(OggVorbis_File *vf,vorbis_info *vi){ CHECK(vf->offset==D1 && vi->channels==7,"initial offset of the NEXT link computed at its first audio page with its info"); vf->offset=ND_range(0,1L<<40); ASSUME(vf->offset>D1 && vf->offset<=END); g_after_hdr=vf->offset; return P1; }
+static ogg_int64_t _initial_pcmoffset(OggVorbis_File *vf,vorbis_info *vi){ CHECK(vf->offset==D1 && vi->channels==7,"initial offset of the NEXT link computed at its first audio page with its info");
+  /* the real one reads pages until one carries a granule position, or until it has READ the first page of the following link (a link
+     without audio pages), or to the end of the file: the offset it leaves is inside the next link in the first case, BEYOND its end otherwise */
+  vf->offset=ND_range(0,1L<<40); ASSUME(vf->offset>D1 && vf->offset<=END);
+  if(B2>D1) ASSUME(vf->offset<=B2); else ASSUME(B2==END || vf->offset>=B2+27);
+  g_after_hdr=vf->offset; return P1; }
 static int _bisect_forward_serialno(OggVorbis_File *vf,ogg_int64_t begin,ogg_int64_t searched,ogg_int64_t end,ogg_int64_t endgran,int endserial,long *list,int n,long m){
   g_rec_calls++;
-  CHECK(begin==B1,"recursion starts at the next link's first page"); CHECK(searched==g_after_hdr,"recursion searches from the offset reached after the next link's headers");
+  CHECK(begin==B1,"recursion starts at the next link's first page");
+  CHECK(searched>B1 && searched<=B2,"the search for the end of the next link starts INSIDE that link (also when it has no audio page at all)"); if(B2==D1 && B2<END) WITNESS_AT("next link has no audio pages");
   CHECK(end==END && endgran==ENDGRAN && endserial==ES,"end-of-file facts handed down unchanged"); CHECK(list==g_list1 && n==1 && m==M+1,"recursion gets the NEXT link's serial list and index");
   if(ND_BOOL()){ g_rec_fail=1; int r=ND_int(); ASSUME(r==OV_EREAD||r==OV_EBADLINK||r==OV_EBADHEADER||r==OV_ENOTVORBIS||r==OV_EVERSION||r==OV_EFAULT); return r; }
   int L=M+2+(ND_BOOL()?1:0); vf->links=L;
@@ -63,7 +69,7 @@ static int _bisect_forward_serialno(OggVorbis_File *vf,ogg_int64_t begin,ogg_int
   return 0; }
 void harness(void){
   B0=ND_range(0,1L<<20); ogg_int64_t len=ND_range(200,40000); B1=B0+len; END=B1+ND_range(200,40000);
-  LASTP0=ND_range(0,1L<<21); ASSUME(LASTP0>B0+27 && LASTP0+27<=B1); D1=ND_range(0,1L<<21); ASSUME(D1>B1+27 && D1<END);
+  LASTP0=ND_range(0,1L<<21); ASSUME(LASTP0>B0+27 && LASTP0+27<=B1); D1=ND_range(0,1L<<21); ASSUME(D1>B1+27 && D1<END); B2=ND_range(0,1L<<21); ASSUME(B2>=D1 && B2<=END);
   G0=ND_range(-1,1L<<30); P1=ND_range(0,1L<<30); RAW=ND_range(0,1L<<30); ENDGRAN=ND_range(-1,1L<<30); S0=ND_int(); S1=ND_int(); ES=ND_int(); ASSUME(S0!=S1 && ES!=S0);
   OggVorbis_File vf; memset(&vf,0,sizeof vf); vf.datasource=&vf; vf.seekable=1; vf.ready_state=OPENED; vf.links=1;
   vf.vi=calloc(1,sizeof(*vf.vi)); vf.vc=calloc(1,sizeof(*vf.vc)); vf.vi[0].channels=3;
